@@ -88,11 +88,39 @@ fn run_load<F: FileSystem>(root: &str, fs: F) -> (String, String) {
         })
     }));
     let d = delivered.borrow().join(" ");
-    let res = match r {
+    let mut res = match r {
         Err(msg) => format!("(panic {})", enc(&msg)),
         Ok(Ok(())) => format!("(ok {})", d),
         Ok(Err(e)) => format!("(err {} {})", err_kind(&e), d),
     };
+    // The SAME Loader once more, after a load that its caller aborted at the last entry (a search that found what it looked
+    // for): a load leaves nothing behind, so the third run must deliver what the first did.
+    let total = delivered.borrow().len();
+    if total > 0 && res.starts_with("(ok") {
+        let again = sx::catch(std::panic::AssertUnwindSafe(|| {
+            let mut seen = 0usize;
+            let _ = loader.load(|path, _pctx, _entry: &syntax::plain::LedgerEntry| {
+                seen += 1;
+                if seen == total {
+                    return Err(LoadError::RecursiveInclude(path.to_path_buf()));      // the caller's own way of saying "stop"
+                }
+                Ok::<(), LoadError>(())
+            });
+            let second: RefCell<Vec<String>> = RefCell::new(Vec::new());
+            let r2 = loader.load(|path, _pctx, entry: &syntax::plain::LedgerEntry| {
+                second.borrow_mut().push(format!("({} {})", show_path(path), tree::entry(entry)));
+                Ok::<(), LoadError>(())
+            });
+            match r2 {
+                Ok(()) => format!("(ok {})", second.borrow().join(" ")),
+                Err(e) => format!("(err {} {})", err_kind(&e), second.borrow().join(" ")),
+            }
+        }));
+        let again = again.unwrap_or_else(|m| format!("(panic {})", enc(&m)));
+        if again != res {
+            res = format!("(reuse-differs {} {})", res, again);
+        }
+    }
     let globs: Vec<String> = log
         .borrow()
         .iter()
